@@ -19,7 +19,7 @@ tier: B
 backend: cadical
 unwind: 8
 unwind_thorough: 12
-bound: list length 1..4, elements NULL placeholders or any key
+bound: list length 1..4, elements NULL placeholders or any key [thorough tier: lengths up to 5]
 funcs: spif_linked_list_dup, spif_linked_list_item_dup, spif_linked_list_new, spif_linked_list_del, spif_linked_list_done
 */
 /*@unit
@@ -41,7 +41,7 @@ tier: B
 backend: cadical
 unwind: 8
 unwind_thorough: 12
-bound: vector length 1..4, ascending keys
+bound: vector length 1..4, ascending keys [thorough tier: lengths up to 5]
 funcs: spif_linked_list_vector_dup, spif_linked_list_item_dup, spif_linked_list_vector_new
 */
 /*@unit
@@ -65,7 +65,7 @@ unwind: 8
 unwind_thorough: 12
 objbits: 10
 timeout: 600
-bound: map size 1..4, all key and value keys
+bound: map size 1..4, all key and value keys [thorough tier: lengths up to 5]
 funcs: spif_linked_list_map_dup, spif_linked_list_item_dup, spif_linked_list_map_new, spif_objpair_dup
 */
 /*@unit
@@ -88,7 +88,7 @@ tier: B
 backend: cadical
 unwind: 8
 unwind_thorough: 12
-bound: list length <= 4 (the content is irrelevant); at least one argument NULL
+bound: list length <= 4 (the content is irrelevant); at least one argument NULL [thorough tier: lengths up to 5]
 funcs: spif_linked_list_comp
 */
 /*@unit
@@ -99,7 +99,7 @@ tier: B
 backend: cadical
 unwind: 8
 unwind_thorough: 12
-bound: two lists of length <= 4; recursion depth <= 8
+bound: two lists of length <= 4; recursion depth <= 8 [thorough tier: lengths up to 5]
 funcs: spif_linked_list_comp
 */
 #include "vprelude.h"
